@@ -431,6 +431,11 @@ pub struct World {
     pub outcome: Option<Outcome>,
 }
 
+/// (name of the task being run, scheduler steps so far) of the simulation on the main thread,
+/// mirrored for an OS-thread watchdog: a task that never comes back from a resume is spinning
+/// inside the code under test without touching any seam.
+pub static RUNNING_TASK: std::sync::Mutex<(String, u64)> = std::sync::Mutex::new((String::new(), 0));
+
 thread_local! {
     static WORLD: RefCell<Option<World>> = const { RefCell::new(None) };
     static YIELDER: Cell<*const Yielder<Resume, ()>> = const { Cell::new(std::ptr::null()) };
@@ -1758,6 +1763,11 @@ fn resume_task(cos: &mut [Option<Co>], t: TaskId, how: Resume) {
         w.tasks[t].state = TState::Runnable;
     });
     YIELDERS.with(|ys| YIELDER.with(|c| c.set(ys.borrow()[t])));
+    if let Ok(mut g) = RUNNING_TASK.try_lock() {
+        let (name, steps) = with(|w| (format!("{}/{}", w.procs[w.tasks[t].proc].name, w.tasks[t].name), w.steps));
+        g.0 = name;
+        g.1 = steps;
+    }
     let mut res = co.resume(how);
     if killing {
         // a task being killed may reach further suspension points in destructors: keep killing
